@@ -36,7 +36,7 @@ Proof. unfold Reqb; destruct (Req_EM_T x y); split; intros; try lra; try discrim
 
 (* Unfold generated / generic definitions down to R operations so that ring/field/nsatz apply. *)
 Ltac sm_simpl :=
-  cbn [zero one add sub mul div neg sqrt_ sin_ cos_ tan_ acos_ asin_ atan_ atan2_ abs_ floor_ exp_ ln_
+  cbv beta iota zeta delta [zero one add sub mul div neg sqrt_ sin_ cos_ tan_ acos_ asin_ atan_ atan2_ abs_ floor_ exp_ ln_
        ltb leb eqb of_Z eps pi_f Rops fst snd] in *.
 Ltac destruct_tuples :=
   repeat match goal with x : (_ * _)%type |- _ => destruct x end;
